@@ -314,7 +314,11 @@ def filter_parity_rule(P, rep, rid):
     try:
         i_file, i_disk, i_miss, i_err = names.index('filterlist_file'), names.index('filterlist_disk'), names.index('filter_missing'), names.index('filter_error')
     except ValueError:
-        raise AnalysisBroken('state_filter: parameters not recognised (%s)' % names)
+        # renamed parameters: fall back to the declared order (state, file list, disk list, missing, error), checked by type
+        tys = [a.get('ty') or '' for a in f.args]
+        if len(f.args) != 5 or not (tys[1].endswith('*') and tys[2].endswith('*') and not tys[3].endswith('*') and not tys[4].endswith('*')):
+            raise AnalysisBroken('state_filter: parameters not recognised (%s)' % names)
+        i_file, i_disk, i_miss, i_err = 1, 2, 3, 4
     bad = None; n = 0
     LEV = 2
     for has_file, has_disk, miss in itertools.product((0, 1), repeat=3):
